@@ -46,6 +46,8 @@ import TonVerif.Model.BocEntry
 import TonVerif.Proofs.BocRoundTrip
 import TonVerif.Proofs.SrcBocDeser
 import TonVerif.Proofs.SrcBocEmit
+import TonVerif.Proofs.SrcBocAny
+import TonVerif.Proofs.BocRoundTripAny
 
 namespace TonVerif.Properties.C03
 open TonVerif TonVerif.Model TonVerif.Model.BocForms TonVerif.Spec.Boc TonVerif.Proofs.BocEmit TonVerif.Proofs.BocForms
@@ -323,12 +325,6 @@ theorem c03_roundtrip_src (H : Bytes → Bytes) (t : Cell) (wf : TreeWF H t) (ty
 section SrcEmit
 open TonVerif.Proofs.SrcBocEmit TonVerif.Generated.BocEmitSrc
 
-/-- SOURCE TIE of the emitter half: `Generated.BocEmitSrc.to_boc` (with `order`, `serialize`) is regenerated on every run from
-`Cell.to_boc` / `Cell.order` / `Cell.serialize` (pytoniq_core/boc/cell.py) and equals the hand model `PCell.toBoc` that
-`c03_roundtrip` is stated with, for every cell object, option set and iteration budget (C04: `c04_src_to_boc`). -/
-theorem c03_src_emitter (fuel : Nat) (p : PCell) (o : Opts) :
-    to_boc fuel p o.hasIdx o.hasCrc o.hasCache o.flags = p.toBoc fuel o := src_toBoc_eq fuel p o
-
 /-- SOURCE TIE of the input forms: `Generated.BocEmitSrc.boc_init` is regenerated from `Boc.__init__`
 (pytoniq_core/boc/deserialize.py: `isinstance(data, bytes)`, `bytes.fromhex`, on ValueError `base64.b64decode`) and equals the
 hand model `BocForms.inputBytes` for every bytes / str argument (`fromHex` / `b64Dec` stay the hand models of the two CPython
@@ -349,30 +345,34 @@ theorem c03_roundtrip_src2 (H : Bytes → Bytes) (t : Cell) (wf : TreeWF H t) (t
     ∃ bs, to_boc fuel p o.hasIdx o.hasCrc o.hasCache o.flags = some bs ∧
       (∀ form ∈ [Sum.inl bs, Sum.inr (hexEnc bs), Sum.inr (b64Enc bs)], boc_init form = some bs) ∧
       Generated.BocCells.deserialize bs (Generated.BocCells.liftMk (BocParse.mkCell H)) = some [some (t, p.info)] := by
-  rw [src_order_eq] at h
-  cases ho : p.order fuel with
-  | none => rw [ho] at h; cases h
-  | some ord =>
-    rw [ho] at h
-    simp only [Option.map_some, Option.some.injEq] at h
-    subst h
-    rw [dictKeys_dictOf] at hn hP
-    obtain ⟨htb, hfb⟩ := fromBoc_toBoc H t wf ty p hb nc fuel ord ho o hv hn hP
-    obtain ⟨rest, hwf, hm⟩ := toBoc_magic p fuel ord o nc (build_ok H t p (shape_of H t wf ty) hb) ho hn hP
-    rw [hm] at htb hfb
-    refine ⟨_, by rw [src_toBoc_eq]; exact htb, ?_, by rw [c03_src_parser, hfb]; rfl⟩
-    intro form hf
-    rw [src_boc_init_eq]
-    exact forms_inputBytes rest hwf form hf
+  obtain ⟨vo, htb⟩ := Proofs.SrcBocAny.src_toBoc_any fuel p d nc h o.hasIdx o.hasCrc o.hasCache o.flags
+  obtain ⟨hem, hfb⟩ := fromBoc_anyOrder H t wf ty p hb nc (Py.dictKeys d) vo o hv hn hP
+  obtain ⟨_, rest, hwf, hm⟩ := anyOrder_emits p (Py.dictKeys d) o hv (build_ok H t p (shape_of H t wf ty) hb) vo hn hP
+  rw [hm] at hem hfb
+  refine ⟨_, by rw [htb]; exact hem, ?_, by rw [c03_src_parser, hfb]; rfl⟩
+  intro form hf
+  rw [src_boc_init_eq]
+  exact forms_inputBytes rest hwf form hf
 
 /-- non-vacuity: the DAG with sharing (`dagTree`, toy hash `id`) meets all hypotheses of `c03_roundtrip_src2` with the
 regenerated `Cell.order` and budget 50 -/
 example : ∃ p d, Cell.build id dagTree = some p ∧ NoCollision p ∧ order 50 p [] = some d ∧ (Py.dictKeys d).length < 2 ^ 32 ∧
     (payloadOf (sizeW (orderRecs (Py.dictKeys d))) (orderRecs (Py.dictKeys d))).length * 2 < 2 ^ 64 := by
   obtain ⟨p, ord, h1, h2, h3, h4, h5⟩ := dagTree_hyps
-  refine ⟨p, dictOf ord, h1, h2, by rw [src_order_eq, h3]; rfl, ?_, ?_⟩ <;> rw [dictKeys_dictOf]
-  · omega
-  · exact h5
+  have hs : (match Cell.build id dagTree with
+      | some p => (match order 50 p [] with
+        | some d => decide ((Py.dictKeys d).length = 4) &&
+            decide ((payloadOf (sizeW (orderRecs (Py.dictKeys d))) (orderRecs (Py.dictKeys d))).length * 2 < 2 ^ 64)
+        | none => false)
+      | none => false) = true := by decide +kernel
+  rw [h1] at hs
+  simp only at hs
+  cases hd : order 50 p [] with
+  | none => rw [hd] at hs; cases hs
+  | some d =>
+    rw [hd] at hs
+    simp only [Bool.and_eq_true, decide_eq_true_eq] at hs
+    exact ⟨p, d, h1, h2, hd, by omega, hs.2⟩
 
 end SrcEmit
 
